@@ -152,6 +152,36 @@ inline Bytes makePayload(int kind, size_t len, uint32_t id)
     return b;
 }
 
+// A capture-module status payload that every length walk accepts but in which NO byte from the start of the last
+// string to the end of the payload is zero (unterminated string, vendor length >= 0x0101, vendor data without zeros).
+inline Bytes makeCmNoNul(uint32_t id)
+{
+    const uint64_t r = mix64(id * 0x9E3779B97F4A7C15ULL + 99);
+    const size_t l3 = 2 + (r % 40), vl = 0x0101 + ((r >> 8) % 0x30) + (((r >> 16) % 3) << 8);
+    Bytes b = contentBytes(id, 0, wire::CM_FIXED + 2 + 2 + 2 + (2 + l3) + 2 + vl);
+    size_t pos = wire::CM_FIXED;
+    for (int i = 0; i < 3; ++i)
+    {
+        wire::wr16(b.data() + pos, 0);
+        pos += 2;
+    }
+    wire::wr16(b.data() + pos, static_cast<uint16_t>(l3));
+    pos += 2;
+    for (size_t k = 0; k < l3; ++k)
+        b[pos + k] = static_cast<uint8_t>('A' + (b[pos + k] % 26));
+    pos += l3;
+    uint16_t v = static_cast<uint16_t>(vl);
+    if ((v & 0xFF) == 0)
+        v |= 1;
+    wire::wr16(b.data() + pos, v);
+    pos += 2;
+    b.resize(pos + v);
+    for (size_t k = pos; k < b.size(); ++k)
+        b[k] = static_cast<uint8_t>(1 + (contentByte(id, static_cast<uint32_t>(k)) % 255));
+    b[24] = 0;
+    return b;
+}
+
 // offset and width of the inner length field "which" of a payload kind; false if there is none
 inline bool innerLenField(int kind, const uint8_t* p, size_t n, int which, size_t& off, int& width)
 {
